@@ -24,6 +24,12 @@
 //        c04_program reduce <cols> "<A>" "<b>"     (one REDUCE line for the given equality system)
 //        c04_program iter <quick|thorough> [count [chunk]]     (ITER stage: own generator stream, solver parameters across their domains)
 //        c04_program iterreplay "<text after `:: ` of an ISOLVE line>" "<par>"     (one solve with the values hook installed)
+//        c04_program rest <quick|thorough> [count [chunk]]     (REST stage: equality-only programs as SOLVE lines with kind=eq-*, and
+//                                                                make_strictly_feasible / make_x0 / the default start as MSF + MSTART lines)
+//        c04_program restreplay "<SOLVE text>"                  (one program through the REST stage: SOLVE line if it has no inequality, MSF + MSTART otherwise)
+//   MSF <id> kind=<k> n=<n> m=<m> ret=<0|1> strict_known=<0|1> | G | h | x returned | y:x;y:x;...   linear_constrained_t::make_strictly_feasible of the
+//         library next to the trial loop recomputed here with the same Eigen calls (trials in evaluation order: ym, yM, ym*g, yM/g, ...)
+//   MSTART <id> expect=<e> status=<s> iters=<k> started=<0|1> | x0 of ev_program_start (the starting point make_x0 handed to solve_with_inequality)
 #include "common.h"
 #include <Eigen/Dense>
 #include <algorithm>
@@ -538,6 +544,7 @@ prog_t gen_tiny(vh::rng_t& rng)
 // program::reduce on an equality system, next to the LU factorisation it is built from (same Eigen call)
 // ---------------------------------------------------------------------------------------------------
 long g_reduce_lines = 0;
+bool g_emit_reduce  = true; // REST stage: only for well-scaled equality systems (the reduce oracles assume Eigen's numerical rank is the exact one)
 
 std::string sidx(const std::vector<long>& v)
 {
@@ -690,7 +697,7 @@ void run_one(const prog_t& P, const long id, counters_t& C)
     const auto dA = std::max({1e-3, Ar.size() > 0 ? Ar.lpNorm<2>() : 0.0, br.size() > 0 ? br.lpNorm<2>() : 0.0});
     const auto dG = std::max({1e-3, G.size() > 0 ? G.lpNorm<2>() : 0.0, h.size() > 0 ? h.lpNorm<2>() : 0.0});
 
-    if (!P.A.empty() && (P.kind.find("eq") != std::string::npos || id % 8 == 0)) emit_reduce(id, "solve:" + P.kind, P.A, P.b, n);
+    if (g_emit_reduce && !P.A.empty() && (P.kind.find("eq") != std::string::npos || id % 8 == 0)) emit_reduce(id, "solve:" + P.kind, P.A, P.b, n);
 
     const auto ptext = program_text(P, id);
     std::cout << ptext << " | " << smat(Ar) << " | " << svec(br) << " | " << vh::hexf(dQ) << "," << vh::hexf(dA) << ","
@@ -755,7 +762,20 @@ void run_one(const prog_t& P, const long id, counters_t& C)
             // the deviation is below 512 ulp of the row's own terms (2^-44 * sum |a_j x_j|): the point is so far away that
             // double arithmetic cannot resolve the property's absolute tolerance -- defect candidate `converged at a huge
             // point`, reported separately (see notes/C04.md), not as a failure of the feasibility logic
+            // equality-only path (solve_without_inequality): the rows are divided by dA = max(1e-3, |A|_F, |b|_2) and the KKT system is
+            // accepted on a RELATIVE residual (isApprox): a `converged` answer only guarantees |A'x - b'|_2 <= epsilon2 |(c', b')|_2 on the
+            // normalised rows (theorem C04_eq_converged_rprim_bound; enforced on the implementation as PROPFAIL eq-rprim-bound), i.e.
+            // |a_i x - b_i| <= 1.42e-8 dA, which exceeds the property's tolerance 1e-6 (1 + |b|_inf) when |A|_F >> 1 + |b|_inf -- a deviation
+            // inside the code's own acceptance bound is the defect candidate `equality-tolerance-vs-row-scale` (notes/C04.md), reported separately
+            const ld cn = static_cast<ld>(c.lpNorm<2>()) / dQ, bn = (br.size() > 0 ? static_cast<ld>(br.lpNorm<2>()) : 0.0L) / dA;
+            const ld accept = 1.001L * static_cast<ld>(epsilon2<scalar_t>()) * static_cast<ld>(dA) * std::sqrt(cn * cn + bn * bn);
             if (dev <= 0x1p-44L * terms) { ++C.candidates; std::cout << "CAND feasibility-at-rounding-level id=" << id << " clause=equality " << d.str() << " :: " << ptext << "\n"; }
+            else if (P.G.empty() && dev <= accept)
+            {
+                ++C.candidates;
+                std::cout << "CAND equality-tolerance-vs-row-scale id=" << id << " clause=equality " << d.str() << " dA=" << dA << " |a.x-b|/dA=" << static_cast<double>(dev / dA)
+                          << " :: " << ptext << "\n";
+            }
             else fail(C, "equality", id, d.str(), ptext);
             break;
         }
@@ -821,7 +841,14 @@ void run_one(const prog_t& P, const long id, counters_t& C)
         const ld bound = 1e-8L * M * (1 + std::sqrt(dx2) + u1 + v1);
         ++C.gap_checked;
         C.worst_gap_ratio = std::max(C.worst_gap_ratio, std::fabs(fx - fs) / bound);
-        if (!(std::fabs(fx - fs) <= bound))
+        if (!(std::fabs(fx - fs) <= bound) && P.G.empty() && bound < 0x1p-53L * mag)
+        {
+            // equality-only stage: the bound is below half an ulp of the objective's own terms (not resolvable in double arithmetic, nor by
+            // this oracle's long double): counted, not judged
+            ++C.candidates;
+            std::cout << "CAND gap-below-double-resolution id=" << id << " bound=" << static_cast<double>(bound) << " terms=" << static_cast<double>(mag) << " :: " << ptext << "\n";
+        }
+        else if (!(std::fabs(fx - fs) <= bound))
         {
             std::ostringstream d;
             d << "f(x)=" << vh::hexf(static_cast<double>(fx)) << " f*=" << vh::hexf(static_cast<double>(fs)) << " |f(x)-f*|=" << static_cast<double>(std::fabs(fx - fs))
@@ -1038,6 +1065,292 @@ void iter_stage(const long count, const long chunk)
     std::cout << "DONE iter_solves=" << g_iter_solves << " iter_lines=" << g_iter_lines << "\n";
 }
 
+// ---------------------------------------------------------------------------------------------------
+// REST stage: programs without inequalities (solve_without_inequality), make_strictly_feasible / make_x0
+// ---------------------------------------------------------------------------------------------------
+long g_msf_lines = 0, g_mstart_lines = 0;
+
+// equality-only programs: KKT-consistent (optimum known), rank-deficient restatements, inconsistent systems, unbounded directions,
+// huge right-hand sides, equality rows much larger than their right-hand side, nearly dependent rows
+prog_t gen_eq(vh::rng_t& rng)
+{
+    for (;;)
+    {
+        prog_t P;
+        const int n  = chance(rng, 50) ? static_cast<int>(rng.range(1, 3)) : static_cast<int>(rng.range(1, 8));
+        const int p  = static_cast<int>(rng.range(0, n));
+        const auto N = static_cast<size_t>(n);
+        P.n          = n;
+        const int fam = static_cast<int>(rng.range(0, 99));
+        P.kind       = "eq-kkt";
+        const int qk = static_cast<int>(rng.range(0, 9)); // 0-1 LP, 2-6 full rank, 7-9 rank deficient
+        P.xs.resize(N);
+        for (auto& v : P.xs) v = dy(rng, 12, 4.0);
+        P.A.assign(static_cast<size_t>(p), dvec(N, 0.0));
+        P.b.assign(static_cast<size_t>(p), 0.0);
+        P.vs.assign(static_cast<size_t>(p), 0.0);
+        const bool mixed = chance(rng, 40);
+        for (int i = 0; i < p; ++i)
+        {
+            const double s = mixed ? p2(static_cast<int>(rng.range(-7, 7))) : 1.0;
+            bool any = false;
+            while (!any)
+                for (auto& v : P.A[static_cast<size_t>(i)]) { v = chance(rng, 25) ? 0.0 : dy(rng, 8, 4.0) * s; any = any || v != 0.0; }
+            P.vs[static_cast<size_t>(i)] = dy(rng, 16, 4.0) / s;
+        }
+        if (qk >= 2)
+        {
+            const int r = (qk <= 6 || n == 1) ? n : static_cast<int>(rng.range(1, n - 1));
+            P.Q         = make_Q(rng, n, r, mixed ? p2(static_cast<int>(rng.range(-3, 3))) : 1.0);
+            bool any = false;
+            for (const auto& row : P.Q) for (const auto v : row) any = any || v != 0.0;
+            if (!any) P.Q.clear();
+        }
+        P.expect = 1;
+        if (fam >= 40 && fam < 50 && !P.Q.empty())
+        {
+            // a tiny curvature added on the diagonal: regular but ill-conditioned KKT matrix
+            const double t = p2(static_cast<int>(rng.range(-45, -15)));
+            for (size_t i = 0; i < N; ++i) P.Q[i][i] += t;
+            P.kind = "eq-illcond";
+        }
+        if (fam >= 50 && fam < 62 && p > 0)
+        {
+            // large right-hand side: the optimum is far away (NB: the property's optimality bound 1e-8 M (1 + ...) is absolute in x while the
+            // error of a double-precision solve grows with |x*|^2: beyond 2^15 the bound is below what ANY double solve can deliver)
+            const double t = p2(static_cast<int>(rng.range(8, 15)));
+            for (auto& v : P.xs) v *= t;
+            P.kind = "eq-hugeb";
+        }
+        if (fam >= 62 && fam < 76 && p > 0)
+        {
+            // equality rows much larger than their right-hand side (the divisor of the normalisation is |A|_F, the property's tolerance
+            // is relative to 1 + |b|_inf)
+            const double t = p2(static_cast<int>(rng.range(7, 30)));
+            for (auto& r : P.A) for (auto& v : r) v *= t;
+            for (auto& v : P.vs) v /= t;
+            if (chance(rng, 50)) for (auto& v : P.xs) v = 0.0;
+            else if (chance(rng, 50)) for (auto& v : P.xs) v *= p2(static_cast<int>(rng.range(-30, -7)));
+            P.kind = "eq-hugeA";
+        }
+        for (int i = 0; i < p; ++i) P.b[static_cast<size_t>(i)] = static_cast<double>(ldot(P.A[static_cast<size_t>(i)], P.xs));
+        bool okb = true;
+        for (int i = 0; i < p; ++i) okb = okb && exact(ldot(P.A[static_cast<size_t>(i)], P.xs));
+        if (!okb) continue;
+        if (!set_kkt_c(P)) continue;
+        if (fam >= 76 && fam < 84 && p > 0)
+        {
+            // a nearly dependent row: a_k + 2^-j e_q with a consistent right-hand side (the system stays solvable, x* is unchanged)
+            const auto k = static_cast<size_t>(rng.range(0, p - 1));
+            const auto q = static_cast<size_t>(rng.range(0, n - 1));
+            dvec row = P.A[k];
+            const double t = p2(static_cast<int>(rng.range(-45, -20)));
+            row[q] += t;
+            const ld rhs = ldot(row, P.xs);
+            if (!exact(rhs) || row[q] == P.A[k][q]) continue;
+            P.A.push_back(row); P.b.push_back(static_cast<double>(rhs)); P.vs.push_back(0.0);
+            P.kind = "eq-neardep";
+        }
+        if (fam >= 84 && fam < 92 && p > 0)
+        {
+            // dependent rows with an inconsistent right-hand side: no feasible point at all
+            const auto k = static_cast<size_t>(rng.range(0, p - 1));
+            dvec row = P.A[k];
+            double rhs = P.b[k];
+            if (p > 1 && chance(rng, 50))
+            {
+                const auto k2 = static_cast<size_t>(rng.range(0, p - 1));
+                const double w = static_cast<double>(rng.range(-2, 2));
+                for (size_t j = 0; j < N; ++j) row[j] += w * P.A[k2][j];
+                rhs += w * P.b[k2];
+            }
+            const double delta = static_cast<double>(rng.range(1, 64)) * p2(static_cast<int>(rng.range(-12, 0)));
+            P.A.push_back(row); P.b.push_back(rhs + (chance(rng, 50) ? delta : -delta) * std::max(1.0, std::fabs(rhs)));
+            P.expect = 2;
+            P.xs.clear(); P.us.clear(); P.vs.clear();
+            P.kind = "eq-incons";
+        }
+        else if (fam >= 92)
+        {
+            // unbounded: a coordinate direction without curvature, outside every equality row, with a negative cost
+            const auto j = static_cast<size_t>(rng.range(0, n - 1));
+            for (auto& r : P.A) r[j] = 0.0;
+            for (size_t i = 0; i < P.Q.size(); ++i) { P.Q[i][j] = 0.0; P.Q[j][i] = 0.0; }
+            if (P.c[j] == 0.0) P.c[j] = -1.0;
+            P.c[j] = -std::fabs(P.c[j]);
+            for (size_t i = 0; i < P.A.size(); ++i) P.b[i] = static_cast<double>(ldot(P.A[i], P.xs));
+            P.expect = 3;
+            P.xs.clear(); P.us.clear(); P.vs.clear();
+            P.kind = "eq-unbnd";
+        }
+        return P;
+    }
+}
+
+// linear_constrained_t::make_strictly_feasible of the library next to its trial loop recomputed with the same Eigen calls
+void emit_msf(const prog_t& P, const long id)
+{
+    const auto n = P.n;
+    const auto A = to_matrix(P.A, n), G = to_matrix(P.G, n);
+    const auto b = to_vector(P.b), h = to_vector(P.h), c = to_vector(P.c);
+    const auto program = make_linear(c, make_equality(A, b), make_inequality(G, h));
+    const auto ret     = program.make_strictly_feasible();
+
+    std::string trials;
+    {
+        // exactly what src/program/constrained.cpp does
+        const auto& Ai     = program.m_ineq.m_A;
+        const auto& bi     = program.m_ineq.m_b;
+        const auto  decomp = (Ai.transpose() * Ai).ldlt();
+        auto        x      = vector_t{Ai.cols()};
+        bool        found  = false;
+        const auto  eval   = [&](const scalar_t y)
+        {
+            x.vector() = decomp.solve(Ai.transpose() * (bi + vector_t::constant(Ai.rows(), -y)));
+            if (!trials.empty()) trials += ";";
+            trials += vh::hexf(y) + ":" + svec(x);
+            if ((Ai * x.vector() - bi).maxCoeff() < 0.0) { found = true; return true; }
+            return false;
+        };
+        static constexpr auto gamma = 0.3;
+        auto ym = 1.0;
+        auto yM = 1.0 / gamma;
+        for (auto trial = 0; trial < 100; trial += 2)
+        {
+            if (eval(ym) || eval(yM)) break;
+            ym *= gamma;
+            yM /= gamma;
+        }
+        (void)found;
+    }
+    ++g_msf_lines;
+    std::cout << "MSF " << id << " kind=" << P.kind << " n=" << n << " m=" << P.G.size() << " ret=" << (ret ? 1 : 0)
+              << " strict_known=" << ((!P.din.empty() && !P.xs.empty()) ? 1 : 0) << " | " << smat(P.G) << " | " << svec(P.h) << " | "
+              << (ret ? svec(ret.value()) : std::string("-")) << " | " << (trials.empty() ? std::string("-") : trials) << "\n";
+}
+
+// solve(program) without a starting point, observed through ev_program_start: which x0 did make_x0 hand to solve_with_inequality?
+void emit_mstart(const prog_t& P, const long id)
+{
+    const auto n = P.n;
+    const auto A = to_matrix(P.A, n), G = to_matrix(P.G, n);
+    const auto b = to_vector(P.b), h = to_vector(P.h), c = to_vector(P.c);
+    auto       Qm = P.Q.empty() ? matrix_t{} : to_matrix(P.Q, n);
+    const auto solver = solver_t{};
+    const auto logger = make_null_logger();
+    g_ievents.clear();
+    ::nano::verif::g_values_hook.store(&values_hook);
+    solver_state_t state;
+    if (P.Q.empty()) state = solver.solve(make_linear(c, make_equality(A, b), make_inequality(G, h)), logger);
+    else state = solver.solve(make_quadratic(Qm, c, make_equality(A, b), make_inequality(G, h)), logger);
+    ::nano::verif::g_values_hook.store(nullptr);
+    std::string x0 = "-";
+    int started = 0;
+    for (const auto& ev : g_ievents)
+    {
+        if (ev.kind != ::nano::verif::ev_program_start) continue;
+        const auto& v = ev.values;
+        const auto nn = static_cast<size_t>(v.at(0)), mm = static_cast<size_t>(v.at(1)), pp = static_cast<size_t>(v.at(2)), qq = static_cast<size_t>(v.at(3));
+        size_t pos = 5 + qq * nn * nn + nn + pp * nn + pp + mm * nn + mm;
+        if (pos + nn != v.size()) { std::cout << "FAIL hook-layout id=" << id << " ev_program_start carries " << v.size() << " values\n"; continue; }
+        x0 = sseg(v, pos, nn);
+        started = 1;
+    }
+    g_ievents.clear();
+    ++g_mstart_lines;
+    std::cout << "MSTART " << id << " expect=" << P.expect << " status=" << static_cast<int>(state.m_status) << " iters=" << state.m_iters
+              << " started=" << started << " | " << x0 << "\n";
+}
+
+void rest_one(prog_t P, const long id, counters_t& C)
+{
+    P.x0.clear();
+    // NB: the ill-scaled families (right-hand sides 2^40 times the rows, rows dependent up to 2^-45) are outside the hypothesis of the
+    //     reduce theorems by construction (Eigen's numerical rank is below the exact rank): no REDUCE line for them
+    g_emit_reduce = P.kind == "eq-kkt" || P.kind == "eq-incons" || P.kind == "eq-unbnd" || P.kind == "tiny";
+    if (P.G.empty()) { run_one(P, id, C); g_emit_reduce = true; return; }
+    g_emit_reduce = true;
+    std::cout << "RPROG " << id << " :: " << program_text(P, id) << " | - | - | - | - | " << svec(P.xs) << " | " << svec(P.us) << " | " << svec(P.vs) << "\n";
+    emit_msf(P, id);
+    emit_mstart(P, id);
+}
+
+// programs with a strictly feasible point for which the least-squares candidates of make_strictly_feasible all fail: one variable,
+// rows x <= h1, -k x <= h2, x <= h3 (the candidate does not depend on y when the rows sum to zero)
+prog_t gen_msf_blind(vh::rng_t& rng)
+{
+    prog_t P;
+    P.kind = "msf-blind";
+    P.n    = 1;
+    const double k = chance(rng, 50) ? 2.0 : 4.0;
+    P.G = {{1.0}, {-k}, {k - 1.0}};
+    const double lo = -static_cast<double>(rng.range(1, 4)), hi = 0.0, far = static_cast<double>(rng.range(4, 40));
+    P.h = {hi, -k * lo, (k - 1.0) * far};
+    P.c = {chance(rng, 50) ? -1.0 : 1.0};
+    P.expect = 1;
+    P.xs = {P.c[0] < 0 ? hi : lo};
+    P.us = {P.c[0] < 0 ? 1.0 : 0.0, P.c[0] < 0 ? 0.0 : 1.0 / k, 0.0};
+    P.din = {P.c[0] < 0 ? -0.5 : 0.5};
+    return P;
+}
+
+// one variable, two parallel rows whose first least-squares candidate (y = 1) lies EXACTLY on a boundary: x <= a, x <= a + 2 gives
+// x(1) = a with slacks (0, -2) -- it must be rejected (strictly inside is required), the next distance is accepted
+prog_t gen_msf_edge(vh::rng_t& rng)
+{
+    prog_t P;
+    P.kind = "msf-edge";
+    P.n    = 1;
+    const double s = chance(rng, 50) ? 1.0 : -1.0;
+    const double a = static_cast<double>(rng.range(-3, 3));
+    P.G = {{s}, {s}};
+    P.h = {a, a + 2.0};
+    if (chance(rng, 50)) std::swap(P.h[0], P.h[1]);
+    P.c = {-s};
+    P.expect = 0;
+    return P;
+}
+
+void rest_stage(const std::string& tier, const long count, const long chunk)
+{
+    vh::rng_t  rng0(vh::env_seed() ^ 0x4E57C04ULL);
+    const auto h0 = rng0.next();
+    vh::rng_t  rng(h0 ^ (static_cast<uint64_t>(chunk) + 1U) * 0xD1B54A32D192ED03ULL);
+    rng.next();
+    counters_t C;
+    long id = 700000000L + chunk * 1000000L;
+    (void)tier;
+    for (long k = 0; k < count; ++k)
+    {
+        const int what = static_cast<int>(rng.range(0, 99));
+        if (what < 45)
+        {
+            const auto P  = gen_eq(rng);
+            const long b0 = id;
+            rest_one(P, id++, C);
+            if (P.expect == 1 && !P.A.empty() && chance(rng, 35)) rest_one(restate(rng, P, b0), id++, C);
+        }
+        else if (what < 75)
+        {
+            const auto P  = gen_kkt(rng);
+            const long b0 = id;
+            rest_one(P, id++, C);
+            if (chance(rng, 30)) rest_one(restate(rng, P, b0), id++, C);
+            if (chance(rng, 10)) rest_one(make_infeasible(rng, P, b0), id++, C);
+        }
+        else if (what < 79) rest_one(gen_msf_blind(rng), id++, C);
+        else if (what < 80) rest_one(gen_msf_edge(rng), id++, C);
+        else
+        {
+            auto P = gen_tiny(rng);
+            rest_one(P, id++, C);
+        }
+    }
+    std::cout << "DONE solves=" << C.solves << " converged=" << C.converged << " fails=" << C.fails << " candidates=" << C.candidates
+              << " unfeasible=" << C.unfeasible << " unbounded=" << C.unbounded << " failed=" << C.failed << " kinds=" << shist(C.kinds)
+              << " converged_by_kind=" << shist(C.conv_by_kind) << " msf_lines=" << g_msf_lines << " mstart_lines=" << g_mstart_lines << "\n";
+}
+
 prog_t parse_program(const std::string& text)
 {
     // "SOLVE id kind=.. base=.. x0=.. expect=.. n=.. | Q | c | A | b | G | h [| Ar | br | d | x0 | xs | us | vs]"
@@ -1086,6 +1399,18 @@ int main(int argc, char** argv)
         const std::string tier = argc > 2 ? argv[2] : "quick";
         g_iter_maxn = tier == "thorough" ? 8 : 6;
         iter_stage(argc > 3 ? std::atol(argv[3]) : (tier == "thorough" ? 2000 : 250), argc > 4 ? std::atol(argv[4]) : 0);
+        return 0;
+    }
+    if (mode == "rest")
+    {
+        const std::string tier = argc > 2 ? argv[2] : "quick";
+        rest_stage(tier, argc > 3 ? std::atol(argv[3]) : (tier == "thorough" ? 4000 : 1200), argc > 4 ? std::atol(argv[4]) : 0);
+        return 0;
+    }
+    if (mode == "restreplay" && argc > 2)
+    {
+        rest_one(parse_program(argv[2]), 0, C);
+        std::cout << "DONE solves=" << C.solves << " converged=" << C.converged << " fails=" << C.fails << " msf_lines=" << g_msf_lines << " mstart_lines=" << g_mstart_lines << "\n";
         return 0;
     }
     if (mode == "reduce" && argc > 4)
